@@ -244,18 +244,8 @@ func c05Run(c *core.Ctx) {
 	first := true
 	Cases(c, c05Gen(c), func(c *core.Ctx, cs c05Case) {
 		p := &cs.GraphProg
-		sc := make([]bool, p.N)
-		q := *p // the reference sees a short-cut node as a node without injection points
-		q.Edges = make([][]int, p.N)
-		for i := range q.Edges {
-			q.Edges[i] = append([]int{}, p.Edges[i]...)
-			if len(p.Wrap) > i && p.Wrap[i] == scen.WrapInstSelf {
-				sc[i] = true
-				for j := range q.Edges[i] {
-					q.Edges[i][j] = scen.ENone
-				}
-			}
-		}
+		qp, sc := shortcutView(p)
+		q := *qp
 		ref := refGraph(&q)
 		if p.ProcNode {
 			// the processor depends on node a: a (and what a needs) is created even when lazy
